@@ -49,6 +49,9 @@ type c06 struct {
 	info  *types.Info
 	pkg   *types.Package
 	funcs map[types.Object]*ast.FuncDecl
+	// alias: local variables of the function under analysis that hold a reference obtained from shared memory
+	// (`c := target.redirectCache`, `u := t.URL`, `for _, r := range t[host]`), with what they refer to
+	alias map[types.Object]string
 }
 
 func c06FuncName(fd *ast.FuncDecl) string {
@@ -162,9 +165,163 @@ func (c *c06) describe(e ast.Expr) string {
 			if vr, ok := o.(*types.Var); ok && !vr.IsField() && vr.Parent() == c.pkg.Scope() {
 				return "var " + v.Name
 			}
+			if a, ok := c.alias[o]; ok {
+				return a
+			}
 		}
+	case *ast.TypeAssertExpr:
+		return c.describe(v.X)
+	case *ast.UnaryExpr:
+		if v.Op == token.AND {
+			return c.describe(v.X)
+		}
+	case *ast.SliceExpr:
+		return c.describe(v.X)
 	}
 	return ""
+}
+
+// computeAliases fills c.alias for one function: a local assigned from (a reference into) shared memory keeps
+// referring to it. A by-value struct copy (`x := *p`) is not an alias (its own fields are per-request), but what
+// its pointer fields refer to still is — see the depth rule in writes.
+func (c *c06) computeAliases(fd *ast.FuncDecl) {
+	c.alias = map[types.Object]string{}
+	bind := func(l ast.Expr, r ast.Expr) {
+		id, ok := l.(*ast.Ident)
+		if !ok || id.Name == "_" {
+			return
+		}
+		o := c.info.Defs[id]
+		if o == nil {
+			o = c.info.Uses[id]
+		}
+		if o == nil {
+			return
+		}
+		if _, isCopy := r.(*ast.StarExpr); isCopy {
+			return
+		}
+		if call, ok := r.(*ast.CallExpr); ok {
+			// a method called on shared memory hands back something that may refer into it: x := c.Load()
+			if se, ok := call.Fun.(*ast.SelectorExpr); ok {
+				if d := c.describe(se.X); d != "" && !strings.HasPrefix(d, "var ") {
+					if _, inPkg := c.funcs[c.info.Uses[se.Sel]]; !inPkg {
+						c.alias[o] = d + "." + se.Sel.Name + "()"
+					}
+				}
+			}
+			return
+		}
+		if d := c.describe(r); d != "" {
+			// scalars read out of shared memory are values, not references: only keep reference-like types
+			if tv, ok := c.info.Types[r]; ok && tv.Type != nil {
+				switch u := tv.Type.Underlying().(type) {
+				case *types.Basic:
+					if u.Kind() != types.Invalid {
+						return
+					}
+				}
+			}
+			c.alias[o] = d
+		}
+	}
+	for pass := 0; pass < 3; pass++ {
+		ast.Inspect(fd.Body, func(n ast.Node) bool {
+			switch v := n.(type) {
+			case *ast.AssignStmt:
+				if len(v.Lhs) == len(v.Rhs) {
+					for i := range v.Lhs {
+						bind(v.Lhs[i], v.Rhs[i])
+					}
+				} else if len(v.Rhs) == 1 && len(v.Lhs) >= 1 {
+					bind(v.Lhs[0], v.Rhs[0])
+				}
+			case *ast.RangeStmt:
+				if v.Value != nil {
+					bind(v.Value, &ast.IndexExpr{X: v.X, Index: ast.NewIdent("_")})
+				}
+			}
+			return true
+		})
+	}
+}
+
+// c06ReadOnly: methods of foreign types that only read (or only synchronise); every other method called on a
+// receiver rooted in shared memory is reported as a "call" write.
+var c06ReadOnly = map[string]bool{"Load": true, "String": true, "Match": true, "Get": true, "Len": true,
+	"Hostname": true, "Port": true, "Query": true, "EscapedPath": true, "EscapedFragment": true, "IsAbs": true,
+	"RequestURI": true, "Redacted": true, "Contains": true, "Equal": true, "Error": true, "Values": true,
+	"Lock": true, "Unlock": true, "RLock": true, "RUnlock": true}
+
+// fieldDepth: number of selector/index/deref steps between the root identifier and the denoted memory.
+func fieldDepth(e ast.Expr) int {
+	switch v := e.(type) {
+	case *ast.SelectorExpr:
+		return 1 + fieldDepth(v.X)
+	case *ast.IndexExpr:
+		return 1 + fieldDepth(v.X)
+	case *ast.StarExpr:
+		return 1 + fieldDepth(v.X)
+	case *ast.ParenExpr:
+		return fieldDepth(v.X)
+	}
+	return 0
+}
+
+// firstField: the field selected directly on the root identifier (x.f.g.h -> f).
+func firstField(e ast.Expr) string {
+	for {
+		switch v := e.(type) {
+		case *ast.SelectorExpr:
+			if _, ok := v.X.(*ast.Ident); ok {
+				return v.Sel.Name
+			}
+			e = v.X
+		case *ast.IndexExpr:
+			e = v.X
+		case *ast.StarExpr:
+			e = v.X
+		case *ast.ParenExpr:
+			e = v.X
+		default:
+			return ""
+		}
+	}
+}
+
+// freshFields: fields of `root` that this function assigns a freshly allocated value (&T{…}, T{…}, new, make).
+func (c *c06) freshFields(fd *ast.FuncDecl, root types.Object) map[string]bool {
+	out := map[string]bool{}
+	ast.Inspect(fd.Body, func(n ast.Node) bool {
+		as, ok := n.(*ast.AssignStmt)
+		if !ok {
+			return true
+		}
+		for i, l := range as.Lhs {
+			se, ok := l.(*ast.SelectorExpr)
+			if !ok || i >= len(as.Rhs) {
+				continue
+			}
+			id, ok := se.X.(*ast.Ident)
+			if !ok || c.info.Uses[id] != root {
+				continue
+			}
+			r := as.Rhs[i]
+			if u, ok := r.(*ast.UnaryExpr); ok && u.Op == token.AND {
+				r = u.X
+			}
+			switch v := r.(type) {
+			case *ast.CompositeLit:
+				out[se.Sel.Name] = true
+			case *ast.CallExpr:
+				if f, ok := v.Fun.(*ast.Ident); ok && (f.Name == "new" || f.Name == "make") {
+					out[se.Sel.Name] = true
+				}
+			}
+		}
+		return true
+	})
+	return out
 }
 
 // isLocalCopy reports whether id names a local variable declared as `id := *expr` (a by-value copy).
@@ -207,19 +364,32 @@ func (c *c06) writes(fd *ast.FuncDecl, recvLocal bool) []c06Write {
 		recvObj = c.info.Defs[fd.Recv.List[0].Names[0]]
 	}
 	var out []c06Write
+	c.computeAliases(fd)
 	lockPos, hasLock := c06LockPos(c.x, fd)
+	// isCopyWrite: the memory belongs to a per-request by-value copy: a field of the copy itself, or something
+	// reached through a field that this function freshly allocated on the copy. Anything else reached THROUGH
+	// a (shallow) copy is still the shared object's.
+	isCopyWrite := func(e ast.Expr) bool {
+		id := c06RootIdent(e)
+		if id == nil {
+			return false
+		}
+		o := c.info.Uses[id]
+		if o == nil {
+			return false
+		}
+		if !((o == recvObj && recvLocal) || (o != recvObj && c.isLocalCopy(fd, id))) {
+			return false
+		}
+		return fieldDepth(e) <= 1 || c.freshFields(fd, o)[firstField(e)]
+	}
 	add := func(pos token.Pos, kind string, lhs ast.Expr) {
 		what := c.describe(lhs)
 		if what == "" {
 			return
 		}
-		if id := c06RootIdent(lhs); id != nil {
-			o := c.info.Uses[id]
-			if o != nil && o == recvObj && recvLocal {
-				kind = "copy"
-			} else if o != nil && o != recvObj && c.isLocalCopy(fd, id) {
-				kind = "copy"
-			}
+		if isCopyWrite(lhs) {
+			kind = "copy"
 		}
 		if kind == "plain" && hasLock && pos > lockPos {
 			kind = "locked"
@@ -230,8 +400,13 @@ func (c *c06) writes(fd *ast.FuncDecl, recvLocal bool) []c06Write {
 		switch v := n.(type) {
 		case *ast.AssignStmt:
 			for _, l := range v.Lhs {
-				if _, ok := l.(*ast.Ident); ok && v.Tok == token.DEFINE {
-					continue
+				if id, ok := l.(*ast.Ident); ok {
+					// rebinding a local (even one that aliases shared memory) writes nothing shared; only a
+					// package-level variable counts
+					vr, isVar := c.info.Uses[id].(*types.Var)
+					if v.Tok == token.DEFINE || !isVar || vr.Parent() != c.pkg.Scope() {
+						continue
+					}
 				}
 				add(v.Pos(), "plain", l)
 			}
@@ -244,16 +419,21 @@ func (c *c06) writes(fd *ast.FuncDecl, recvLocal bool) []c06Write {
 						add(v.Pos(), "atomic", u.X)
 					}
 				}
-				// sync.Map mutation on a field: c.m.Store / c.m.Delete
-				if c06MapMut[se.Sel.Name] {
-					if inner, ok := se.X.(*ast.SelectorExpr); ok {
-						if what := c.describe(inner); what != "" {
-							kind := "syncmap"
-							if hasLock && v.Pos() > lockPos {
-								kind = "locked"
-							}
-							out = append(out, c06Write{name, kind, what})
+				// any method of a foreign type called on a receiver rooted in shared memory (a sync.Map, atomic.Value,
+				// sync.Once, a metrics handle, a *url.URL … field of Table/Route/Target/GlobCache, directly or through
+				// a local alias or a shallow copy), unless the method is known to be read-only. Methods of in-package
+				// types are followed by the call graph instead.
+				_, isPkg := c.info.Uses[c06RootIdentOrNil(se.X)].(*types.PkgName)
+				_, inPkg := c.funcs[c.info.Uses[se.Sel]]
+				if !isPkg && !inPkg && !c06ReadOnly[se.Sel.Name] {
+					if what := c.describe(se.X); what != "" && fieldDepth(se.X) >= 0 {
+						kind := "call"
+						if c.isFreshThroughCopy(fd, se.X, recvObj, recvLocal) {
+							kind = "copy"
+						} else if hasLock && v.Pos() > lockPos {
+							kind = "locked"
 						}
+						out = append(out, c06Write{name, kind, what + "." + se.Sel.Name})
 					}
 				}
 			}
@@ -265,6 +445,30 @@ func (c *c06) writes(fd *ast.FuncDecl, recvLocal bool) []c06Write {
 		return true
 	})
 	return out
+}
+
+func c06RootIdentOrNil(e ast.Expr) *ast.Ident {
+	if id := c06RootIdent(e); id != nil {
+		return id
+	}
+	return ast.NewIdent("_")
+}
+
+// isFreshThroughCopy: the receiver expression is reached through a field that this function freshly allocated on
+// a per-request copy.
+func (c *c06) isFreshThroughCopy(fd *ast.FuncDecl, e ast.Expr, recvObj types.Object, recvLocal bool) bool {
+	id := c06RootIdent(e)
+	if id == nil {
+		return false
+	}
+	o := c.info.Uses[id]
+	if o == nil {
+		return false
+	}
+	if !((o == recvObj && recvLocal) || (o != recvObj && c.isLocalCopy(fd, id))) {
+		return false
+	}
+	return c.freshFields(fd, o)[firstField(e)]
 }
 
 // c06LockPos: position of the first `<recv>.<mutex>.Lock()` statement of the body.
@@ -541,6 +745,12 @@ func init() {
 				roots = append(roots, c.info.Defs[fd.Name])
 			}
 		}
+		// the Target methods HTTPProxy.ServeHTTP calls on the target it was handed (before the hand-off)
+		for _, m := range []string{"AccessDeniedHTTP", "Authorized"} {
+			if fd := x.funcDecl("route", "Target", m); fd != nil {
+				roots = append(roots, c.info.Defs[fd.Name])
+			}
+		}
 		roots = append(roots, c.funcsInVar("route", "Picker")...)
 		roots = append(roots, c.funcsInVar("route", "Matcher")...)
 		seen := map[types.Object]bool{}
@@ -596,7 +806,7 @@ func init() {
 		x.defRaw(c06LeanTriples("lookupWrites", ws))
 
 		// ---- proxy.ServeHTTP: writes through the target ----
-		var pw []string
+		var pw, pm, pc, pa []string
 		if fd := x.funcDecl("proxy", "HTTPProxy", "ServeHTTP"); fd != nil {
 			// the target variable: `t := p.Lookup(r)`
 			tname := ""
@@ -628,11 +838,49 @@ func init() {
 					if id := c06RootIdent(v.X); id != nil && id.Name == tname {
 						pw = append(pw, x.src(v.X))
 					}
+				case *ast.CallExpr:
+					se, ok := v.Fun.(*ast.SelectorExpr)
+					if !ok {
+						return true
+					}
+					id := c06RootIdent(se.X)
+					if id == nil || id.Name != tname {
+						return true
+					}
+					if _, direct := se.X.(*ast.Ident); direct {
+						pm = append(pm, "Target."+se.Sel.Name) // a method of route.Target: must be in lookupReach
+					} else if !c06ReadOnly[se.Sel.Name] {
+						pc = append(pc, x.src(se))
+					}
+				}
+				return true
+			})
+			// aliases of the target's reference fields in ServeHTTP: `x := t.F` followed by x.M(...) / x.f = ...
+			ast.Inspect(fd.Body, func(n ast.Node) bool {
+				as, ok := n.(*ast.AssignStmt)
+				if !ok || len(as.Lhs) != len(as.Rhs) {
+					return true
+				}
+				for i, r := range as.Rhs {
+					if _, isSel := r.(*ast.SelectorExpr); !isSel {
+						continue
+					}
+					if id := c06RootIdent(r); id != nil && id.Name == tname {
+						if l, ok := as.Lhs[i].(*ast.Ident); ok {
+							pa = append(pa, l.Name+" := "+x.src(r))
+						}
+					}
 				}
 				return true
 			})
 		}
+		sort.Strings(pm)
+		sort.Strings(pc)
+		sort.Strings(pa)
 		x.defStrList("proxyTargetWrites", pw)
+		x.defStrList("proxyTargetMethods", pm)
+		x.defStrList("proxyTargetCalls", pc)
+		x.defStrList("proxyTargetAliases", pa)
 		return nil
 	})
 }
